@@ -1,8 +1,26 @@
 // Unit symfold (C18): MergeOnce / MergeOnceWith / SymmetricDiff from incremental-map/src/symmetric_fold.rs
 use vstd::prelude::*;
 use std::iter::Peekable;
+use std::collections::{btree_map::Keys, BTreeMap};
 
 verus! {
+
+pub mod seqx {
+    use vstd::prelude::*;
+    pub open spec fn cons<A>(x: A, s: Seq<A>) -> Seq<A> { seq![x] + s }
+
+    pub broadcast proof fn lemma_cons<A>(x: A, s: Seq<A>)
+        ensures
+            #![trigger cons(x, s)]
+            cons(x, s).len() == s.len() + 1,
+            cons(x, s)[0] == x,
+            cons(x, s).drop_first() == s,
+    {
+        assert(cons(x, s).drop_first() =~= s);
+    }
+}
+use seqx::*;
+broadcast use seqx::lemma_cons;
 
 //@include vx_prelude.rs
 
@@ -35,29 +53,29 @@ pub assume_specification<T>[ core::mem::drop ](x: T);
 //@| #[verifier::reject_recursive_types(J)]
 //@end
 
-pub open spec fn asc(s: Seq<u64>) -> bool {
-    forall|i: int, j: int| 0 <= i < j < s.len() ==> s[i] < s[j]
+spec fn asc<'a>(s: Seq<&'a u64>) -> bool {
+    forall|i: int, j: int| 0 <= i < j < s.len() ==> *s[i] < *s[j]
 }
 
 // ---- specification of one merge step and of the whole merge (spec level, from the property text:
 //      "pairs entries with equal keys and otherwise yields them in global key order,
 //       so no key is skipped or visited twice") ----
-pub open spec fn step_takes_a(a: Seq<u64>, b: Seq<u64>) -> bool {
-    a.len() > 0 && (b.len() == 0 || a[0] <= b[0])
+spec fn step_takes_a<'a>(a: Seq<&'a u64>, b: Seq<&'a u64>) -> bool {
+    a.len() > 0 && (b.len() == 0 || *a[0] <= *b[0])
 }
-pub open spec fn step_takes_b(a: Seq<u64>, b: Seq<u64>) -> bool {
-    b.len() > 0 && (a.len() == 0 || b[0] <= a[0])
+spec fn step_takes_b<'a>(a: Seq<&'a u64>, b: Seq<&'a u64>) -> bool {
+    b.len() > 0 && (a.len() == 0 || *b[0] <= *a[0])
 }
-pub open spec fn step_out(a: Seq<u64>, b: Seq<u64>) -> u64 {
+spec fn step_out<'a>(a: Seq<&'a u64>, b: Seq<&'a u64>) -> &'a u64 {
     if step_takes_a(a, b) { a[0] } else { b[0] }
 }
-pub open spec fn step_a(a: Seq<u64>, b: Seq<u64>) -> Seq<u64> {
+spec fn step_a<'a>(a: Seq<&'a u64>, b: Seq<&'a u64>) -> Seq<&'a u64> {
     if step_takes_a(a, b) { a.drop_first() } else { a }
 }
-pub open spec fn step_b(a: Seq<u64>, b: Seq<u64>) -> Seq<u64> {
+spec fn step_b<'a>(a: Seq<&'a u64>, b: Seq<&'a u64>) -> Seq<&'a u64> {
     if step_takes_b(a, b) { b.drop_first() } else { b }
 }
-pub open spec fn merged(a: Seq<u64>, b: Seq<u64>) -> Seq<u64>
+spec fn merged<'a>(a: Seq<&'a u64>, b: Seq<&'a u64>) -> Seq<&'a u64>
     decreases a.len() + b.len(),
 {
     if a.len() == 0 && b.len() == 0 {
@@ -67,28 +85,28 @@ pub open spec fn merged(a: Seq<u64>, b: Seq<u64>) -> Seq<u64>
     }
 }
 
-pub proof fn lemma_asc_drop_first(s: Seq<u64>)
+proof fn lemma_asc_drop_first<'a>(s: Seq<&'a u64>)
     requires asc(s), s.len() > 0,
     ensures asc(s.drop_first()),
-            forall|i: int| 0 <= i < s.drop_first().len() ==> s[0] < #[trigger] s.drop_first()[i],
+            forall|i: int| 0 <= i < s.drop_first().len() ==> *s[0] < *#[trigger] s.drop_first()[i],
 {
     let t = s.drop_first();
-    assert forall|i: int, j: int| 0 <= i < j < t.len() implies t[i] < t[j] by {
+    assert forall|i: int, j: int| 0 <= i < j < t.len() implies *t[i] < *t[j] by {
         assert(t[i] == s[i + 1]);
         assert(t[j] == s[j + 1]);
     }
-    assert forall|i: int| 0 <= i < t.len() implies s[0] < #[trigger] t[i] by {
+    assert forall|i: int| 0 <= i < t.len() implies *s[0] < *#[trigger] t[i] by {
         assert(t[i] == s[i + 1]);
     }
 }
 
 /// Every element of merged(a,b) comes from a or b and is >= the step output (a lower bound lemma
 /// used by the ordering proof).
-pub proof fn lemma_merged_lower_bound(a: Seq<u64>, b: Seq<u64>, lo: u64)
+proof fn lemma_merged_lower_bound<'a>(a: Seq<&'a u64>, b: Seq<&'a u64>, lo: u64)
     requires asc(a), asc(b),
-             forall|i: int| 0 <= i < a.len() ==> lo < #[trigger] a[i],
-             forall|i: int| 0 <= i < b.len() ==> lo < #[trigger] b[i],
-    ensures forall|i: int| 0 <= i < merged(a, b).len() ==> lo < #[trigger] merged(a, b)[i],
+             forall|i: int| 0 <= i < a.len() ==> lo < *#[trigger] a[i],
+             forall|i: int| 0 <= i < b.len() ==> lo < *#[trigger] b[i],
+    ensures forall|i: int| 0 <= i < merged(a, b).len() ==> lo < *#[trigger] merged(a, b)[i],
     decreases a.len() + b.len(),
 {
     if a.len() == 0 && b.len() == 0 {
@@ -97,23 +115,23 @@ pub proof fn lemma_merged_lower_bound(a: Seq<u64>, b: Seq<u64>, lo: u64)
         let b2 = step_b(a, b);
         if step_takes_a(a, b) { lemma_asc_drop_first(a); }
         if step_takes_b(a, b) { lemma_asc_drop_first(b); }
-        assert forall|i: int| 0 <= i < a2.len() implies lo < #[trigger] a2[i] by {
+        assert forall|i: int| 0 <= i < a2.len() implies lo < *#[trigger] a2[i] by {
             if step_takes_a(a, b) { assert(a2[i] == a[i + 1]); }
         }
-        assert forall|i: int| 0 <= i < b2.len() implies lo < #[trigger] b2[i] by {
+        assert forall|i: int| 0 <= i < b2.len() implies lo < *#[trigger] b2[i] by {
             if step_takes_b(a, b) { assert(b2[i] == b[i + 1]); }
         }
         lemma_merged_lower_bound(a2, b2, lo);
         let m = merged(a, b);
         let rest = merged(a2, b2);
-        assert forall|i: int| 0 <= i < m.len() implies lo < #[trigger] m[i] by {
+        assert forall|i: int| 0 <= i < m.len() implies lo < *#[trigger] m[i] by {
             if i == 0 { } else { assert(m[i] == rest[i - 1]); }
         }
     }
 }
 
 /// C18: the merge output is strictly ascending (so no key is visited twice).
-pub proof fn lemma_merged_ascending(a: Seq<u64>, b: Seq<u64>)
+proof fn lemma_merged_ascending<'a>(a: Seq<&'a u64>, b: Seq<&'a u64>)
     requires asc(a), asc(b),
     ensures asc(merged(a, b)),
     decreases a.len() + b.len(),
@@ -126,16 +144,16 @@ pub proof fn lemma_merged_ascending(a: Seq<u64>, b: Seq<u64>)
         if step_takes_a(a, b) { lemma_asc_drop_first(a); }
         if step_takes_b(a, b) { lemma_asc_drop_first(b); }
         lemma_merged_ascending(a2, b2);
-        assert forall|i: int| 0 <= i < a2.len() implies o < #[trigger] a2[i] by {
+        assert forall|i: int| 0 <= i < a2.len() implies *o < *#[trigger] a2[i] by {
             if step_takes_a(a, b) { assert(a2[i] == a[i + 1]); } else { }
         }
-        assert forall|i: int| 0 <= i < b2.len() implies o < #[trigger] b2[i] by {
+        assert forall|i: int| 0 <= i < b2.len() implies *o < *#[trigger] b2[i] by {
             if step_takes_b(a, b) { assert(b2[i] == b[i + 1]); } else { }
         }
-        lemma_merged_lower_bound(a2, b2, o);
+        lemma_merged_lower_bound(a2, b2, *o);
         let m = merged(a, b);
         let rest = merged(a2, b2);
-        assert forall|i: int, j: int| 0 <= i < j < m.len() implies m[i] < m[j] by {
+        assert forall|i: int, j: int| 0 <= i < j < m.len() implies *m[i] < *m[j] by {
             assert(m[j] == rest[j - 1]);
             if i == 0 { } else { assert(m[i] == rest[i - 1]); }
         }
@@ -143,7 +161,7 @@ pub proof fn lemma_merged_ascending(a: Seq<u64>, b: Seq<u64>)
 }
 
 /// C18: the merge output contains exactly the keys of a and of b (so no key is skipped).
-pub proof fn lemma_merged_contains(a: Seq<u64>, b: Seq<u64>, x: u64)
+proof fn lemma_merged_contains<'a>(a: Seq<&'a u64>, b: Seq<&'a u64>, x: &'a u64)
     ensures merged(a, b).contains(x) <==> (a.contains(x) || b.contains(x)),
     decreases a.len() + b.len(),
 {
@@ -189,9 +207,9 @@ pub proof fn lemma_merged_contains(a: Seq<u64>, b: Seq<u64>, x: u64)
     }
 }
 
-impl<I: Iterator<Item = u64>, J: Iterator<Item = u64>> MergeOnce<I, J> {
-    spec fn va(&self) -> Seq<u64> { pk(&self.a) }
-    spec fn vb(&self) -> Seq<u64> { pk(&self.b) }
+impl<'a, I: Iterator<Item = &'a u64>, J: Iterator<Item = &'a u64>> MergeOnce<I, J> {
+    spec fn va(&self) -> Seq<&'a u64> { pk(&self.a) }
+    spec fn vb(&self) -> Seq<&'a u64> { pk(&self.b) }
     spec fn inv(&self) -> bool {
         &&& asc(self.va())
         &&& asc(self.vb())
@@ -213,7 +231,7 @@ impl<I: Iterator<Item = u64>, J: Iterator<Item = u64>> MergeOnce<I, J> {
 //@ file: incremental-map/src/symmetric_fold.rs
 //@ impl: impl<I, J> Iterator for MergeOnce<I, J>
 //@ name: next
-//@ as: fn next(&mut self) -> (r: Option<u64>)
+//@ as: fn next(&mut self) -> (r: Option<&'a u64>)
 //@ props: C18
 //@ contract:
 //@|     requires old(self).inv(),
@@ -224,8 +242,86 @@ impl<I: Iterator<Item = u64>, J: Iterator<Item = u64>> MergeOnce<I, J> {
 //@|         r is Some ==> r == Some(step_out(old(self).va(), old(self).vb())), // [yields-least-head]
 //@|         r is Some ==> final(self).va() == step_a(old(self).va(), old(self).vb()), // [consumes-left-iff-least-or-equal]
 //@|         r is Some ==> final(self).vb() == step_b(old(self).va(), old(self).vb()), // [consumes-right-iff-least-or-equal]
-//@|         r is Some ==> merged(old(self).va(), old(self).vb()) == seq![r.unwrap()] + merged(final(self).va(), final(self).vb()), // [merge-unfolds]
-//@|         r is None ==> merged(old(self).va(), old(self).vb()) == Seq::<u64>::empty(), // [merge-exhausted]
+//@|         r is Some ==> merged(old(self).va(), old(self).vb()) == cons(r.unwrap(), merged(final(self).va(), final(self).vb())), // [merge-unfolds]
+//@|         r is None ==> merged(old(self).va(), old(self).vb()) == Seq::<&'a u64>::empty(), // [merge-exhausted]
+//@end
+}
+
+
+//@extract enum DiffElement
+//@ file: incremental-map/src/symmetric_fold.rs
+//@ name: DiffElement
+//@end
+
+//@extract struct SymmetricDiff
+//@ file: incremental-map/src/symmetric_fold.rs
+//@ name: SymmetricDiff
+//@ rule R4: `BTreeMap<K, V>` => `BTreeMap<u64, u64>` x2
+//@ rule R4: `Keys<'a, K, V>` => `Keys<'a, u64, u64>` x2
+//@ rule R4: `SymmetricDiff<'a, K: 'a, V: 'a>` => `SymmetricDiff<'a>` x1
+//@end
+
+
+// ---- specification of the symmetric difference stream (from the property text: "visits exactly the
+//      keys that are present in only one map (as Left/Right with that map's value) or present in both
+//      with unequal values (as Unequal(old, new)), each exactly once and in ascending key order") ----
+spec fn present_equal(m1: Map<u64, u64>, m2: Map<u64, u64>, k: u64) -> bool {
+    m1.contains_key(k) && m2.contains_key(k) && m1[k] == m2[k]
+}
+
+spec fn tag_of<'a>(m1: Map<u64, u64>, m2: Map<u64, u64>, k: u64) -> DiffElement<&'a u64> {
+    if m1.contains_key(k) && m2.contains_key(k) {
+        DiffElement::Unequal(&m1[k], &m2[k])
+    } else if m1.contains_key(k) {
+        DiffElement::Left(&m1[k])
+    } else {
+        DiffElement::Right(&m2[k])
+    }
+}
+
+spec fn diff_stream<'a>(rem: Seq<&'a u64>, m1: Map<u64, u64>, m2: Map<u64, u64>) -> Seq<(&'a u64, DiffElement<&'a u64>)>
+    decreases rem.len(),
+{
+    if rem.len() == 0 {
+        Seq::empty()
+    } else {
+        let k = rem[0];
+        let rest = diff_stream(rem.drop_first(), m1, m2);
+        if present_equal(m1, m2, *k) { rest } else { cons((k, tag_of(m1, m2, *k)), rest) }
+    }
+}
+
+
+impl<'a> SymmetricDiff<'a> {
+    spec fn rem(&self) -> Seq<&'a u64> { merged(self.keys.va(), self.keys.vb()) }
+    spec fn inv(&self) -> bool {
+        &&& self.keys.inv()
+        &&& forall|i: int| 0 <= i < self.keys.va().len() ==> self.self_@.contains_key(*#[trigger] self.keys.va()[i])
+        &&& forall|i: int| 0 <= i < self.keys.vb().len() ==> self.other@.contains_key(*#[trigger] self.keys.vb()[i])
+    }
+
+//@extract fn SymmetricDiff::next
+//@ file: incremental-map/src/symmetric_fold.rs
+//@ impl: impl<'a, K: 'a, V: 'a> Iterator for SymmetricDiff<'a, K, V>
+//@ name: next
+//@ as: fn next(&mut self) -> (r: Option<(&'a u64, DiffElement<&'a u64>)>)
+//@ props: C18
+//@ contract:
+//@|     requires old(self).inv(),
+//@|     ensures
+//@|         final(self).inv(), // [inv-preserved]
+//@|         final(self).self_ == old(self).self_ && final(self).other == old(self).other, // [maps-unchanged]
+//@|         r is None ==> diff_stream(old(self).rem(), old(self).self_@, old(self).other@) == Seq::<(&'a u64, DiffElement<&'a u64>)>::empty(), // [none-only-when-no-remaining-key-differs]
+//@|         r is Some ==> diff_stream(old(self).rem(), old(self).self_@, old(self).other@) == cons(r.unwrap(), diff_stream(final(self).rem(), old(self).self_@, old(self).other@)), // [yields-first-differing-key-with-its-tag]
+//@ loop 0:
+//@|     invariant_except_break
+//@|         diff_stream(self.rem(), self.self_@, self.other@) == diff_stream(old(self).rem(), self.self_@, self.other@),
+//@|     invariant
+//@|         self.inv(),
+//@|         self.self_ == old(self).self_ && self.other == old(self).other,
+//@|     ensures
+//@|         diff_stream(old(self).rem(), self.self_@, self.other@) == cons((key, elem), diff_stream(self.rem(), self.self_@, self.other@)),
+//@|     decreases self.keys.va().len() + self.keys.vb().len(),
 //@end
 }
 
